@@ -44,7 +44,7 @@ mkg LdiffGen_l2_3.cfg 3 3 Ids3_6 U3 "{1, 2}" LR OnlyR 2 12 2 1
 # every pair of contents, both sides freshly filled (C07)
 mkg LdiffGen_p2.cfg 2 3 Ids2_3c U2 "{1, 2}" LR NoPeer 1 2 0 0
 mkg LdiffGen_p2t.cfg 2 3 Ids2_4 U2 "{1, 2}" LR NoPeer 1 2 0 0
-mkg LdiffGen_p3t.cfg 3 3 Ids3_4 U3 "{1, 2}" LR NoPeer 1 2 0 0
+mkg LdiffGen_p3t.cfg 3 3 Ids3_3 U3 "{1, 2}" LR NoPeer 1 2 0 0
 # independently tuned peers with different divide factors (DF^1 / DF^2), depth 4
 LG="{1, 2}"
 mkg LdiffGen_p4m.cfg 2 4 Ids4_3 U4 "{1, 2}" LR NoPeer 1 2 0 0
